@@ -39,6 +39,9 @@ COMBOS = [
 # thresholds many orders of magnitude away from ordinary values (dyadic, so
 # that every product and sum stays exact)
 EXTREME = [(3600, 2.0 ** -30, 2.0 ** -30), (1800, 2.0 ** 30, 2.0 ** 31)]
+# a threshold of exactly zero (any rain is a storm / any increase a rise):
+# not "positive", so used only where the property does not ask for that
+ZERO = [(3600, 0.0, 0.0), (1800, 0.0, 5.0), (1200, 3.0, 0.0)]
 
 
 def selftest():
@@ -215,10 +218,12 @@ def db_inputs(case):
         rd = [d + 1 for d in rd]
         idg = [d + 1 for d in idg]
     unit = float(j) * (dt / 3600.)
-    rain = [(0.0, s, 2 * s)[d] for d in rd]
+    rain_values = (0.0, s, 2 * s) if s > 0 else (0.0, 0.0, 2.5)
+    inc_values = (-unit, unit, 2 * unit) if unit > 0 else (-1.0, 0.0, 1.0)
+    rain = [rain_values[d] for d in rd]
     level = [0.0]
     for d in idg:
-        level.append(level[-1] + (-unit, unit, 2 * unit)[d])
+        level.append(level[-1] + inc_values[d])
     for k in range(n - 2):
         if (case['missing'] >> k) & 1:
             level[k + 1] = None
